@@ -34,6 +34,10 @@ COLLISION_FAMILIES = [["foo_bar", "foo-bar", "fooBar", "FooBar", "foo.bar"], ["a
                       ["km", "Km", "KM"], ["a1", "A1", "a-1", "a_1"], ["_1st", "1st", "n1st"]]
 # names that are symbols of the generated code itself (not in the property's list; exercised by dedicated probes only)
 GENERATED_CODE_SYMBOLS = ["field", "dataclass", "Decimal", "QName", "XmlDate", "Enum", "Any", "Meta", "value", "list", "str", "int", "Optional", "List", "object", "property", "__init__", "__class__"]
+# documentation texts end up in docstrings and (accessible style) in metadata strings of the generated modules
+HOSTILE_DOCS = ["Plain sentence.", 'Type[x] looks like a placeholder', 'ForwardRef("x") too', 'say """hi""" there', "a path C:\\new\\table\\x and a trailing backslash \\",
+                "The value is stored at \\\\server-name\\share-name\\some-directory\\another-directory\\file-name.extension on the file server of the department, see there.",
+                "   leading blanks, tabs\tand\nline breaks ", "é 中文 \u2028 separator", "ends with a quote\"", "{braces} and %s and \\N{DASH}", "x" * 200, ""]
 PLAIN_NAMES = ["alpha", "beta", "gamma", "delta", "item", "entry", "name", "size", "code", "note", "kind", "part", "unit", "row", "cell", "info", "data", "node", "leaf", "head", "tail", "body"]
 
 
@@ -75,6 +79,7 @@ class ElemDecl:
     ref: bool = False  # particle referencing a global element
     subst_head: str | None = None
     ns: str | None = None  # namespace of a global element (its schema's target namespace)
+    doc: str | None = None  # xs:annotation/xs:documentation text
 
 
 @dataclass
@@ -112,6 +117,7 @@ class ComplexT:
     attr_groups: list = field(default_factory=list)
     abstract: bool = False
     ns: str | None = None
+    doc: str | None = None
 
 
 @dataclass
@@ -367,6 +373,9 @@ class XsdGen:
                 e.default = gen_lexical(rng, e.type, canonical=True, salt=self.salt)
                 self.feat.add("element-default")
         e.min, e.max = self.occurs()
+        if self.hostile and rng.random() < 0.2:
+            e.doc = rng.choice(HOSTILE_DOCS)
+            self.feat.add("documentation")
         if rng.random() < 0.1:
             e.nillable = True
             self.feat.add("nillable")
@@ -390,6 +399,9 @@ class XsdGen:
         rng = self.rng
         used = set()
         ct = ComplexT(name, ns=schema.tns)
+        if self.hostile and rng.random() < 0.2:
+            ct.doc = rng.choice(HOSTILE_DOCS)
+            self.feat.add("documentation")
         if depth <= 1:
             self.family = rng.choice(COLLISION_FAMILIES) if self.hostile and rng.random() < 0.3 else None
         r = rng.random()
@@ -737,8 +749,11 @@ class Renderer:
             x += f' default="{esc(e.default)}"'
         if e.fixed is not None:
             x += f' fixed="{esc(e.fixed)}"'
+        ann = f"\n{pad}  <xs:annotation><xs:documentation>{esc(e.doc)}</xs:documentation></xs:annotation>" if e.doc is not None else ""
         if anonymous:
-            return x + ">\n" + self.complex(s, e.type, ind + 1, anonymous=True) + f"\n{pad}</xs:element>"
+            return x + ">" + ann + "\n" + self.complex(s, e.type, ind + 1, anonymous=True) + f"\n{pad}</xs:element>"
+        if ann:
+            return x + ">" + ann + f"\n{pad}</xs:element>"
         return x + "/>"
 
     def group(self, s, g: Group, ind):
@@ -758,6 +773,8 @@ class Renderer:
         pad = "  " * ind
         name = "" if anonymous else f' name="{esc(ct.name)}"'
         head = f'{pad}<xs:complexType{name}' + (' mixed="true"' if ct.mixed else "") + (' abstract="true"' if ct.abstract else "") + ">"
+        if ct.doc is not None:
+            head += f"\n{pad}  <xs:annotation><xs:documentation>{esc(ct.doc)}</xs:documentation></xs:annotation>"
         body = []
         attrs = [self.attr(s, a, ind + (3 if (ct.base or ct.simple_base) else 1)) for a in ct.attrs]
         anyattr = [f'{"  " * (ind + (3 if (ct.base or ct.simple_base) else 1))}<xs:anyAttribute namespace="##other" processContents="lax"/>'] if ct.any_attribute else []
